@@ -202,6 +202,8 @@ ExtCtors(S) ==
   \cup {Map("builtin", P("str"), a) : a \in S} \cup {Map("Mapping", P("str"), a) : a \in S}
   \cup {Tup(<<a, P("int")>>) : a \in S} \cup {TwoVariadic(a, P("int")) : a \in S}
   \cup {Opt(a) : a \in S} \cup {Un("Union", <<P("int"), a>>) : a \in S \ {P("int")}}
+  \* (earlier members that reject with InvalidOperation / ZeroDivisionError / re.error, not ValueError or TypeError)
+  \cup {Un("Union", <<P(n), a>>) : n \in {"Decimal", "Fraction", "Pattern"}, a \in S \cap {Ext("Any"), Ext("T_free"), Ext("object")}}
   \cup {FieldOf(a) : a \in S}
 ExtDepth1 == ExtLeaves \cup ExtCtors(ExtLeaves \cup ExtRep)
 ExtMid == IF Profile = "ext_quick"
